@@ -32,11 +32,13 @@ use crate::{fail, lean, Sources, R};
 
 const EP: &str = "endpoint.rs";
 
+#[derive(Clone, PartialEq)]
 pub enum Val {
     Lit(String),
     Src(String),
 }
 
+#[derive(Clone, PartialEq)]
 pub struct Push {
     pub name: String,
     pub value: Val,
@@ -58,6 +60,7 @@ pub struct Prepare {
     pub on_error: String,
 }
 
+#[derive(Clone)]
 pub enum StrExpr {
     Lit(String),
     Var(String),
@@ -94,13 +97,19 @@ pub enum Stmt {
 
 /// ("lit", V) → (name, value)
 fn pair(file: &str, item: &str, env: &Env, e: &syn::Expr) -> R<(String, Val)> {
+    // a pair may be named first (`let p = ("name", value);`)
+    let named = match ident_of(e) {
+        Some(id) => env.map.get(&id).cloned(),
+        None => None,
+    };
+    let e = named.as_ref().unwrap_or(e);
     if let syn::Expr::Tuple(t) = strip(e) {
         if t.elems.len() == 2 {
             if let Some(name) = str_lit(&t.elems[0]) {
                 let v = &t.elems[1];
                 let val = match str_lit(v) {
                     Some(l) => Val::Lit(l),
-                    None => Val::Src(canon(strip_ref(&env.resolve(v)))),
+                    None => Val::Src(canon(text_view(&env.resolve(v)))),
                 };
                 return Ok((name, val));
             }
@@ -119,7 +128,71 @@ fn push_call<'a>(acc: &str, e: &'a syn::Expr) -> Option<&'a syn::Expr> {
     None
 }
 
-/// `P.push(..);` or `if let Some(x) = E { P.push(..); .. }` → pushes; None when the statement has another shape
+/// the pushes of the body of `if let Some(x) = E { .. }` / of the `Some(x)` arm of a `match E`
+fn cond_pushes(file: &str, item: &str, env: &Env, acc: &str, binder: &str, scrut_e: &syn::Expr, body: &[syn::Stmt]) -> R<Vec<Push>> {
+    let scrut = canon(strip_ref(&env.resolve(scrut_e)));
+    let mut inner = env.with_rename(binder, "it");
+    let mut out = Vec::new();
+    for s in body {
+        if let syn::Stmt::Local(l) = s {
+            if let Some((nm, false, init)) = plain_let(l) {
+                inner.bind(&nm, init);
+                continue;
+            }
+        }
+        let t = match s {
+            syn::Stmt::Expr(x, _) => push_call(acc, x),
+            _ => None,
+        };
+        match t {
+            Some(t) => {
+                let (name, value) = pair(file, item, &inner, t)?;
+                out.push(Push { name, value, cond: Some(scrut.clone()) });
+            }
+            None => return fail(file, item, format!("only `{acc}.push((\"name\", value));` inside `if let Some(..) = {scrut}`")),
+        }
+    }
+    if out.is_empty() {
+        return fail(file, item, "at least one push inside the `if let`");
+    }
+    Ok(out)
+}
+
+fn is_unit(e: &syn::Expr) -> bool {
+    match strip(e) {
+        syn::Expr::Tuple(t) => t.elems.is_empty(),
+        syn::Expr::Block(b) => b.block.stmts.is_empty(),
+        _ => false,
+    }
+}
+
+fn body_stmts(e: &syn::Expr) -> Vec<syn::Stmt> {
+    match strip(e) {
+        syn::Expr::Block(b) if b.label.is_none() => b.block.stmts.clone(),
+        other => vec![syn::Stmt::Expr(other.clone(), None)],
+    }
+}
+
+/// `match E { Some([ref] x) => A, None | _ => B }` → (x, A, B)
+fn option_match(m: &syn::ExprMatch) -> Option<(String, &syn::Expr, &syn::Expr)> {
+    if m.arms.len() != 2 || m.arms.iter().any(|a| a.guard.is_some()) {
+        return None;
+    }
+    let mut some = None;
+    let mut none = None;
+    for arm in &m.arms {
+        if let Some(b) = pat_some(&arm.pat) {
+            some = Some((b, &*arm.body));
+        } else if pat_is_none(&arm.pat) || matches!(arm.pat, syn::Pat::Wild(_)) {
+            none = Some(&*arm.body);
+        }
+    }
+    let (b, a) = some?;
+    Some((b, a, none?))
+}
+
+/// `P.push(..);`, `if let Some(x) = E { P.push(..); .. }` or `match E { Some(x) => { P.push(..); }, None => {} }` → pushes;
+/// None when the statement has another shape
 fn push_stmt(file: &str, item: &str, env: &Env, acc: &str, st: &syn::Stmt) -> R<Option<Vec<Push>>> {
     let e = match st {
         syn::Stmt::Expr(e, _) => e,
@@ -135,35 +208,19 @@ fn push_stmt(file: &str, item: &str, env: &Env, acc: &str, st: &syn::Stmt) -> R<
                 Some(b) => b,
                 None => return fail(file, item, format!("`if let Some([ref] x) = E`, found pattern `{}`", canon(&l.pat))),
             };
-            if i.else_branch.is_some() {
-                return fail(file, item, "`if let Some(x) = E { push.. }` without `else`");
-            }
-            let scrut = canon(strip_ref(&env.resolve(&l.expr)));
-            let mut inner = env.with_rename(&binder, "it");
-            let mut out = Vec::new();
-            for s in &i.then_branch.stmts {
-                if let syn::Stmt::Local(l) = s {
-                    if let Some((nm, false, init)) = plain_let(l) {
-                        inner.bind(&nm, init);
-                        continue;
-                    }
-                }
-                let t = match s {
-                    syn::Stmt::Expr(x, _) => push_call(acc, x),
-                    _ => None,
-                };
-                match t {
-                    Some(t) => {
-                        let (name, value) = pair(file, item, &inner, t)?;
-                        out.push(Push { name, value, cond: Some(scrut.clone()) });
-                    }
-                    None => return fail(file, item, format!("only `{acc}.push((\"name\", value));` inside `if let Some(..) = {scrut}`")),
+            if let Some((_, els)) = &i.else_branch {
+                if !is_unit(els) {
+                    return fail(file, item, "`if let Some(x) = E { push.. }` without `else`");
                 }
             }
-            if out.is_empty() {
-                return fail(file, item, "at least one push inside the `if let`");
+            return Ok(Some(cond_pushes(file, item, env, acc, &binder, &l.expr, &i.then_branch.stmts)?));
+        }
+    }
+    if let syn::Expr::Match(m) = strip(e) {
+        if let Some((binder, a, b)) = option_match(m) {
+            if is_unit(b) {
+                return Ok(Some(cond_pushes(file, item, env, acc, &binder, &m.expr, &body_stmts(a))?));
             }
-            return Ok(Some(out));
         }
     }
     Ok(None)
@@ -176,7 +233,94 @@ fn vec_pairs(file: &str, item: &str, env: &Env, elems: &[syn::Expr]) -> R<Vec<Pu
         .collect()
 }
 
-fn prepare(file: &str, owner: &str, f: &syn::ImplItemFn, ep_params: &[String]) -> R<Prepare> {
+/// a vector-valued expression:
+///   vec![("lit", V), ..]  |  Vec::new()  |  Vec::with_capacity(..)
+///   match E { Some([ref] x) => VEC, None => VEC }  |  if let Some([ref] x) = E { VEC } else { VEC }
+/// For the two-armed forms the `None` list must be what remains of the `Some` list when some elements are left out;
+/// those elements are the ones pushed `if let Some(it) = E`.
+fn vec_expr(file: &str, item: &str, env: &Env, e: &syn::Expr) -> R<Option<Vec<Push>>> {
+    let e = strip(e);
+    if let Some(elems) = vec_macro(e) {
+        return Ok(Some(vec_pairs(file, item, env, &elems)?));
+    }
+    if let syn::Expr::Call(c) = e {
+        let f = canon(&c.func);
+        if (f.ends_with("Vec::new") && c.args.is_empty()) || (f.ends_with("Vec::with_capacity") && c.args.len() == 1) {
+            return Ok(Some(Vec::new()));
+        }
+    }
+    let two: Option<(String, &syn::Expr, Vec<syn::Stmt>, Vec<syn::Stmt>)> = match e {
+        syn::Expr::Match(m) => option_match(m).map(|(b, x, y)| (b, &*m.expr, body_stmts(x), body_stmts(y))),
+        syn::Expr::If(i) => match (strip(&i.cond), &i.else_branch) {
+            (syn::Expr::Let(l), Some((_, els))) => pat_some(&l.pat).map(|b| (b, &*l.expr, i.then_branch.stmts.clone(), body_stmts(els))),
+            _ => None,
+        },
+        _ => None,
+    };
+    if let Some((binder, scrut_e, some_body, none_body)) = two {
+        let tail_of = |b: &[syn::Stmt], env: &Env| -> R<Option<Vec<Push>>> {
+            let mut env = env.clone();
+            for (k, st) in b.iter().enumerate() {
+                match st {
+                    syn::Stmt::Local(l) if k + 1 < b.len() => match plain_let(l) {
+                        Some((nm, false, init)) => env.bind(&nm, init),
+                        _ => return Ok(None),
+                    },
+                    syn::Stmt::Expr(x, None) if k + 1 == b.len() => return vec_expr(file, item, &env, x),
+                    _ => return Ok(None),
+                }
+            }
+            Ok(None)
+        };
+        let scrut = canon(strip_ref(&env.resolve(scrut_e)));
+        let with = match tail_of(&some_body, &env.with_rename(&binder, "it"))? {
+            Some(v) => v,
+            None => return Ok(None),
+        };
+        let without = match tail_of(&none_body, env)? {
+            Some(v) => v,
+            None => return Ok(None),
+        };
+        let mut out = Vec::new();
+        let mut rest = without.as_slice();
+        for p in with {
+            if rest.first() == Some(&p) {
+                rest = &rest[1..];
+                out.push(p);
+            } else if p.cond.is_none() {
+                out.push(Push { cond: Some(scrut.clone()), ..p });
+            } else {
+                return fail(file, item, format!("the two vectors of `match {scrut}` to differ only in elements present when it is `Some`"));
+            }
+        }
+        if !rest.is_empty() {
+            return fail(file, item, format!("the `None` vector of `match {scrut}` to be the `Some` vector without the conditional elements"));
+        }
+        return Ok(Some(out));
+    }
+    Ok(None)
+}
+
+/// the error constructor of `.map_err(..)`: `|e| <Path>(..)`, or the name of a private function `fn h(e) -> _ { <Path>(..) }`
+fn on_error_of(src: &syn::File, arg: &syn::Expr) -> Option<String> {
+    if let Some((_, body)) = closure1(arg) {
+        if let syn::Expr::Call(c) = body {
+            return Some(canon(&c.func));
+        }
+        return None;
+    }
+    let name = last_segment(arg)?;
+    let h = free_fn(src, &name)?;
+    if param_names(&h.sig).len() != 1 {
+        return None;
+    }
+    match expr_body(&h.block)? {
+        syn::Expr::Call(c) => Some(canon(&c.func)),
+        _ => None,
+    }
+}
+
+fn prepare(file: &str, src: &syn::File, owner: &str, f: &syn::ImplItemFn, ep_params: &[String]) -> R<Prepare> {
     let item = format!("{owner}::prepare_request");
     let item = item.as_str();
     let mut env = Env::default();
@@ -189,14 +333,15 @@ fn prepare(file: &str, owner: &str, f: &syn::ImplItemFn, ep_params: &[String]) -
     for st in &f.block.stmts[..n - 1] {
         match st {
             syn::Stmt::Local(l) => match plain_let(l) {
-                Some((name, is_mut, init)) if is_mut || vec_macro(init).is_some() => match vec_macro(init) {
-                    Some(elems) if acc.is_none() => {
-                        pushes = vec_pairs(file, item, &env, &elems)?;
+                Some((name, is_mut, init)) => match vec_expr(file, item, &env, init)? {
+                    Some(ps) if acc.is_none() => {
+                        pushes = ps;
                         acc = Some(name);
                     }
-                    _ => return fail(file, item, "at most one `let [mut] <params> = vec![(\"name\", value), ..];`"),
+                    Some(_) => return fail(file, item, "at most one `let [mut] <params> = vec![(\"name\", value), ..];`"),
+                    None if is_mut => return fail(file, item, format!("`let mut {name} = vec![..] | Vec::new() | match <option> {{ Some(x) => vec![..], None => vec![..] }};`")),
+                    None => env.bind(&name, init),
                 },
-                Some((name, _, init)) => env.bind(&name, init),
                 None => return fail(file, item, format!("`let x = E;` or `let mut params = vec![..];`, found `{}`", canon(l))),
             },
             other => {
@@ -220,12 +365,8 @@ fn prepare(file: &str, owner: &str, f: &syn::ImplItemFn, ep_params: &[String]) -
     match calls.as_slice() {
         [] => {}
         [m] if m.method == "map_err" && m.args.len() == 1 => {
-            // |err| <Path>(..)
-            if let Some((_, body)) = closure1(&m.args[0]) {
-                if let syn::Expr::Call(c) = body {
-                    on_error = canon(&c.func);
-                }
-            }
+            // |err| <Path>(..)   or a private function that is that closure
+            on_error = on_error_of(src, &m.args[0]).unwrap_or_default();
             if on_error.is_empty() {
                 return fail(file, item, "`.map_err(|e| <Error constructor>(..))` after `endpoint_request(..)`");
             }
@@ -802,7 +943,7 @@ pub fn extract(srcs: &Sources) -> R<String> {
     let mut preps = Vec::new();
     for (file, f) in &srcs.files {
         for (owner, func) in inherent_fns(f, "prepare_request") {
-            preps.push(prepare(file, &owner, func, &ep_params)?);
+            preps.push(prepare(file, f, &owner, func, &ep_params)?);
         }
     }
     preps.sort_by(|a, b| a.owner.cmp(&b.owner));
